@@ -308,3 +308,227 @@ Section Screen.
     assert (Hntg : N.to_nat (tt_n tgd) = length F1).
     { unfold F1, tgd. cbn [tt_n]. rewrite En, En1. destruct ht; rewrite ?app_length; lia. }
     assert (HlB' : length RB = N.to_nat (visual_line_count (bar_lines_of m) W)) by (rewrite HlB, Hn3; reflexivity).
+    set (zk := if ht then 0 else ms_zombie_lines m) in *.
+    assert (Hn_eq : N.to_nat (tt_n tgd) = (N.to_nat (tt_n tg) + (if ht then N.to_nat (ms_zombie_lines m) else 0))%nat).
+    { unfold tgd. cbn [tt_n]. rewrite En, En1. destruct ht; lia. }
+    assert (Hcases : text_lines_of m extra ++ bar_lines_of m = [] \/ text_lines_of m extra ++ bar_lines_of m <> [])
+      by (destruct (text_lines_of m extra ++ bar_lines_of m); [left | right]; congruence).
+    assert (Hreach' : (length RB + N.to_nat zk <= reach t')%nat).
+    { destruct Hcases as [Hnl|Hnn].
+      - destruct (Hnil Hnl) as (Hre & _). apply app_eq_nil in Hnl. destruct Hnl as [_ Hb0].
+        rewrite HlB', Hb0, Hre, Hn_eq. unfold zk. unfold visual_line_count. cbn [fold_left]. destruct ht; lia.
+      - destruct (Hne Hnn) as (_ & _ & Hre). rewrite Hre, app_length, Hn_eq.
+        assert (length RB + N.to_nat zk <= Hn)%nat by (rewrite HlB'; unfold Hn, zk; destruct ht; lia).
+        unfold zk in *. destruct ht; lia. }
+    assert (Hcur' : cursor_ok (tt_below tg3) (tt_n tg3 + zk) t').
+    { destruct Hcases as [Hnl|Hnn].
+      - destruct (Hnil Hnl) as (_ & Hge & Hz).
+        destruct (N.eq_dec (tt_n tgd) 0) as [Hz0|Hnz].
+        + destruct (Hz Hz0) as [Hb3 Ht3]. rewrite Hb3, Ht3. unfold tgd at 1. cbn [tt_below]. rewrite Eb, Eb1.
+          apply app_eq_nil in Hnl. destruct Hnl as [_ Hb0].
+          assert (Hn30 : tt_n tg3 = 0) by (rewrite Hn3, Hb0; reflexivity).
+          rewrite Hn30. destruct Hcur as [Hc1 Hc2]. split; [exact Hc1|].
+          intros Hbf Hrows. apply Hc2; [exact Hbf|]. unfold zk in Hrows. destruct ht; lia.
+        + destruct (Hge ltac:(lia)) as [Hb3 Hc3]. rewrite Hb3. split; [intros _; exact Hc3 | discriminate].
+      - destruct (Hne Hnn) as (Hb3 & Hc3 & _). rewrite Hb3. split; [discriminate | intros _ _; exact Hc3]. }
+    clearbody t'. clear Hne Hnil Hcases.
+    unfold g_draw. fold ht.
+    destruct ht eqn:Hht.
+    - (* text lines painted: the kept rows are gone, every Bar row stays in the live region *)
+      split; [|exact Fo].
+      exists tg3. split; [exact Ft|]. split; [exact Hal3|]. split; [congruence|].
+      split; [rewrite Fo; constructor|]. split; [exact Hmb2|].
+      exists (L ++ RT), [], RB. cbn [mg_log mg_kept mg_live app length]. rewrite Fz.
+      unfold C in Hr'. rewrite app_nil_r in Hr'.
+      split; [rewrite <- !app_assoc in *; exact Hr'|].
+      split; [rewrite wrap_app; apply rows_equiv_app; assumption|].
+      split; [apply rows_equiv_refl|]. split; [exact HeB|]. split; [exact HlB|]. split; [reflexivity|].
+      unfold zk in *. rewrite <- HlB. split; [lia | exact Hcur'].
+    - (* no text: the rows of the head zombies become kept rows *)
+      split; [|exact Fo].
+      rewrite Ft. cbn [target_adjust_keep target_n].
+      pose proof (no_text_lines m extra Hht) as Hnt. rewrite Hnt in *. cbn [map] in *. rewrite app_nil_r.
+      apply rows_equiv_nil in HeT. subst RT. cbn [app] in Hr'.
+      rewrite bar_lines_split, map_app, wrap_app in HeB.
+      destruct (rows_equiv_split Wn RB _ _ HeB) as (RZ & RR & HRsplit & HeZ & HeR).
+      assert (HlZ : length RZ = N.to_nat (zombie_rows W m)).
+      { rewrite (rows_equiv_length _ _ _ HeZ), zombie_rows_vlc. apply wrap_length. exact HW. }
+      assert (Hmin : N.min (zombie_rows W m) (tt_n tg3) = zombie_rows W m).
+      { assert (length RZ <= length RB)%nat by (rewrite HRsplit, app_length; lia). lia. }
+      rewrite Hmin.
+      exists (tt_adjust_keep tg3 (zombie_rows W m)). split; [reflexivity|]. split; [exact Hal3|].
+      split; [cbn [ms_align set_ms_zombie_lines set_ms_target]; congruence|].
+      split; [cbn [ms_orphans set_ms_zombie_lines set_ms_target]; rewrite Fo; constructor|]. split; [exact Hmb2|].
+      exists L, (K ++ RZ), RR. cbn [mg_log mg_kept mg_live tt_adjust_keep tt_n tt_below ms_zombie_lines set_ms_zombie_lines].
+      rewrite Fz. unfold C in Hr'. rewrite HRsplit in Hr'.
+      split; [rewrite <- !app_assoc in *; exact Hr'|].
+      split; [exact HL|]. split; [apply rows_equiv_app; assumption|]. split; [exact HeR|].
+      assert (HlR : length RR = N.to_nat (tt_n tg3 - zombie_rows W m)).
+      { rewrite HRsplit, app_length in HlB. lia. }
+      split; [exact HlR|]. split; [rewrite app_length; unfold zk; lia|].
+      rewrite HRsplit, app_length in Hreach'. unfold zk in *.
+      split; [lia|].
+      replace (tt_n tg3 - zombie_rows W m + (ms_zombie_lines m + zombie_rows W m)) with (tt_n tg3 + ms_zombie_lines m); [exact Hcur'|].
+      rewrite HRsplit, app_length in HlB. lia.
+  Qed.
+
+  (* ---------------------------------------------------------------- MultiState::clear *)
+  Lemma clear_inv m t g c :
+    AInv m t g ->
+    let r := ms_clear W H nofaults m c in
+    AInv (fst4 r) (run_ops Wn Hn t (snd (fst (fst r)))) (mkmg (mg_log g) [] [])
+    /\ target_n (ms_target (fst4 r)) = 0 /\ ms_zombie_lines (fst4 r) = 0
+    /\ ms_orphans (fst4 r) = ms_orphans m /\ ms_members (fst4 r) = ms_members m
+    /\ ms_order (fst4 r) = ms_order m /\ ms_free (fst4 r) = ms_free m.
+  Proof using HW HH.
+    intros (tg & Ht & Hal & Hma & Horph & Hmb & L & K & F & Hr & HL & HK & HF & HlF & HlK & Hreach & Hcur).
+    cbv zeta. unfold ms_clear. rewrite Ht.
+    set (tg1 := tt_adjust_clear tg (ms_zombie_lines m)).
+    pose proof (term_draw_rows (pre ++ L) (K ++ F) t tg1 [] [] c) as Hd.
+    cbv zeta in Hd. cbn [app] in Hd.
+    destruct Hd as (Hn3 & Hrl3 & Hal3 & RT & RB & Hr' & HeT & HeB & HlB & _ & Hnil).
+    { exact Hal. }
+    { rewrite <- app_assoc. exact Hr. }
+    { unfold tg1. cbn [tt_adjust_clear tt_n]. rewrite app_length. lia. }
+    { unfold tg1. cbn [tt_adjust_clear tt_n]. lia. }
+    { unfold tg1. cbn [tt_adjust_clear tt_n tt_below]. intros Hge.
+      destruct Hcur as [Hc1 Hc2]. destruct (tt_below tg); [apply Hc1; reflexivity | apply Hc2; [reflexivity | lia]]. }
+    { constructor. } { constructor. } { unfold visual_line_count. cbn. lia. }
+    destruct (Hnil eq_refl) as (Hre & Hge & Hz).
+    destruct (term_draw W H nofaults tg1 [] c) as [[[tg2 e] c'] ok] eqn:Etd.
+    unfold fst4. cbn [fst snd] in *.
+    cbn [ms_target ms_zombie_lines ms_orphans ms_members ms_order ms_free set_ms_target set_ms_zombie_lines target_n].
+    assert (Hn0 : tt_n tg2 = 0) by (rewrite Hn3; reflexivity).
+    split; [|repeat split; exact Hn0].
+    cbn [map] in HeT, HeB. apply rows_equiv_nil in HeT. apply rows_equiv_nil in HeB. subst RT RB.
+    rewrite !app_nil_r in Hr'.
+    exists tg2. split; [reflexivity|]. split; [exact Hal3|]. split; [exact Hma|]. split; [exact Horph|].
+    split; [exact Hmb|]. exists L, [], []. cbn [mg_log mg_kept mg_live app length ms_zombie_lines set_ms_zombie_lines set_ms_target].
+    rewrite !app_nil_r, Hn0.
+    split; [exact Hr'|]. split; [exact HL|]. split; [apply rows_equiv_refl|]. split; [apply rows_equiv_refl|].
+    split; [reflexivity|]. split; [reflexivity|]. split; [lia|].
+    split.
+    - intros Hb2. destruct (N.eq_dec (tt_n tg1) 0) as [Hz0|Hnz].
+      + destruct (Hz Hz0) as [Hb Ht']. rewrite Ht'. apply (proj1 Hcur). rewrite <- Hb2, Hb. reflexivity.
+      + apply Hge. lia.
+    - intros _ Hge1. lia.
+  Qed.
+
+  (* ---------------------------------------------------------------- lines written by the closure of suspend *)
+  Lemma writes_inv m : forall ws t g,
+    AInv m t g -> target_n (ms_target m) = 0 -> ms_zombie_lines m = 0 ->
+    forallb (fun w => match w with [] => false | _ => true end) ws = true ->
+    AInv m (run_ops Wn Hn t (map TLine ws)) (mkmg (mg_log g ++ ws) (mg_kept g) (mg_live g)).
+  Proof using HW HH.
+    assert (HWn : (1 <= Wn)%nat) by (unfold Wn; lia).
+    assert (HHn : (1 <= Hn)%nat) by (unfold Hn; lia).
+    induction ws as [|w ws IH]; intros t g Hinv Hn0 Hz0 Hok.
+    - cbn [map]. rewrite run_ops_nil, app_nil_r. destruct g; exact Hinv.
+    - cbn [forallb] in Hok. apply andb_prop in Hok. destruct Hok as [Hw Hok].
+      cbn [map]. rewrite run_ops_cons.
+      replace (mg_log g ++ w :: ws) with ((mg_log g ++ [w]) ++ ws) by (rewrite <- app_assoc; reflexivity).
+      apply (IH (exec Wn Hn t (TLine w)) (mkmg (mg_log g ++ [w]) (mg_kept g) (mg_live g))); try assumption.
+      destruct Hinv as (tg & Ht & Hal & Hma & Horph & Hmb & L & K & F & Hr & HL & HK & HF & HlF & HlK & Hreach & Hcur).
+      rewrite Ht in Hn0. cbn [target_n] in Hn0. rewrite Hn0, Hz0 in *.
+      destruct F; [|discriminate]. destruct K; [|discriminate]. rewrite !app_nil_r in Hr.
+      destruct (line_spec Wn Hn (pre ++ L) t w HWn HHn Hr) as (Hr' & Hc' & Hre').
+      { left. destruct w; [discriminate | discriminate]. }
+      exists tg. split; [exact Ht|]. split; [exact Hal|]. split; [exact Hma|]. split; [exact Horph|].
+      split; [exact Hmb|]. exists (L ++ chunks Wn w), [], []. cbn [mg_log mg_kept mg_live].
+      rewrite !app_nil_r, Hn0, Hz0.
+      split; [rewrite app_assoc; exact Hr'|].
+      split; [rewrite wrap_app; apply rows_equiv_app; [exact HL|]; unfold wrap; cbn; rewrite app_nil_r; apply rows_equiv_refl|].
+      split; [exact HK|]. split; [exact HF|]. split; [reflexivity|]. split; [reflexivity|]. split; [lia|].
+      split; [intros _; exact Hc' | intros _ Hge; lia].
+  Qed.
+
+  (* ---------------------------------------------------------------- MultiState::suspend *)
+  Lemma AInv_retarget m t g tg tg' :
+    AInv m t g -> ms_target m = TTerm tg ->
+    tt_n tg' = tt_n tg -> tt_align tg' = tt_align tg -> tt_below tg' = tt_below tg ->
+    AInv (set_ms_target m (TTerm tg')) t g.
+  Proof.
+    intros (tg0 & Ht & Hal & Hma & Horph & Hmb & L & K & F & Hr & HL & HK & HF & HlF & HlK & Hreach & Hcur) Ht' En Ea Eb.
+    rewrite Ht in Ht'. injection Ht' as <-.
+    exists tg'. split; [reflexivity|]. split; [congruence|]. split; [exact Hma|]. split; [exact Horph|].
+    split; [exact Hmb|]. exists L, K, F. cbn [ms_zombie_lines set_ms_target]. rewrite En, Eb.
+    repeat split; try assumption; apply Hcur.
+  Qed.
+
+  Lemma g_draw_same m m' extra g :
+    ms_members m' = ms_members m -> ms_order m' = ms_order m -> ms_orphans m' = ms_orphans m ->
+    g_draw W m' extra g = g_draw W m extra g.
+  Proof.
+    intros Em Eo Er.
+    unfold g_draw, ms_has_text, text_lines_of, bar_lines_of, zombie_lines_of, rest_lines_of.
+    rewrite Em, Eo, Er. reflexivity.
+  Qed.
+
+  Lemma suspend_inv m t g ws now c :
+    AInv m t g -> fits_act W H now m (ASuspend ws) ->
+    let r := ms_suspend W H nofaults m ws now c in
+    AInv (fst (fst r)) (run_ops Wn Hn t (snd (fst r))) (g_act W now m (ASuspend ws) g)
+    /\ ms_orphans (fst (fst r)) = [].
+  Proof using HW HH.
+    intros Hinv [Hws Hfit]. cbv zeta. unfold ms_suspend.
+    pose proof (clear_inv m t g c Hinv) as Hc. cbv zeta in Hc. unfold fst4 in Hc.
+    destruct (ms_clear W H nofaults m c) as [[[m1 e1] c1] ok1]. cbn [fst snd] in Hc.
+    destruct Hc as (Hinv1 & Hn1 & Hz1 & Eor & Eme & Eod & Efr).
+    pose proof Hinv1 as (tg1 & Ht1 & _).
+    rewrite Ht1 in *. cbn [target_n] in Hn1.
+    set (tg1' := mktt 0 (tt_rl tg1) (tt_align tg1) (tt_below tg1)).
+    set (m1' := set_ms_target m1 (TTerm tg1')).
+    assert (Hinv1' : AInv m1' (run_ops Wn Hn t e1) (mkmg (mg_log g) [] [])).
+    { apply (AInv_retarget m1 _ _ tg1 tg1' Hinv1 Ht1); unfold tg1'; cbn; congruence. }
+    rewrite emit_each_nofaults.
+    pose proof (writes_inv m1' ws _ _ Hinv1' eq_refl Hz1 Hws) as Hinv2. cbn [mg_log mg_kept mg_live] in Hinv2.
+    pose proof (draw_inv m1' _ _ true None now (c1 + N.of_nat (length (map TLine ws))) Hinv2 I) as Hd.
+    cbv zeta in Hd. unfold fst4 in Hd.
+    assert (Hatt : ms_attempt W m1' true None now = true) by reflexivity.
+    cbn [g_act] in Hd. rewrite Hatt in Hd.
+    destruct (ms_draw W H nofaults m1' true None now (c1 + N.of_nat (length (map TLine ws)))) as [[[m3 e3] c3] ok3].
+    cbn [fst snd] in *. rewrite !run_ops_app.
+    rewrite (g_draw_same m m1' None) in Hd by assumption.
+    apply Hd. cbn [fits_act]. intros _.
+    change (ms_zombie_lines m1') with (ms_zombie_lines m1). rewrite Hz1.
+    replace (bar_lines_of m1') with (bar_lines_of m) by (unfold bar_lines_of; cbn [m1' ms_members ms_order set_ms_target]; now rewrite Eme, Eod).
+    apply N.leb_le in Hfit. apply N.leb_le. destruct (ms_has_text m1' None); lia.
+  Qed.
+
+  (* ---------------------------------------------------------------- MultiState::mark_zombie *)
+  Lemma mark_inv m t g idx now :
+    AInv m t g -> AInv (ms_mark_zombie W m idx) t (g_act W now m (AMark idx) g)
+                  /\ ms_orphans (ms_mark_zombie W m idx) = ms_orphans m.
+  Proof.
+    intros (tg & Ht & Hal & Hma & Horph & Hmb & L & K & F & Hr & HL & HK & HF & HlF & HlK & Hreach & Hcur).
+    unfold ms_mark_zombie. cbn [g_act]. destruct (ms_order m) as [|first rest] eqn:Eo.
+    - split; [|reflexivity]. exists tg. repeat (split; [assumption|]). exists L, K, F. repeat split; try assumption; apply Hcur.
+    - rewrite (N.eqb_sym idx first). destruct (N.eqb_spec first idx) as [->|Hne]; cbn [negb].
+      + (* at the head: Keep *)
+        rewrite N.eqb_refl. unfold ms_width. rewrite Ht. cbn [target_n target_adjust_keep].
+        set (lc := N.min (member_vlc (nthN (ms_members m) idx member_default) W) (tt_n tg)).
+        match goal with |- context [ms_remove_idx ?m0 idx] => set (m0' := m0);
+          destruct (remove_idx_other m0' idx) as (Ea & Eor & Ez & Et) end.
+        cbn [m0' ms_align ms_orphans ms_zombie_lines ms_target set_ms_target set_ms_zombie_lines] in Ea, Eor, Ez, Et.
+        split; [|exact Eor].
+        exists (tt_adjust_keep tg lc). split; [exact Et|]. split; [exact Hal|]. split; [congruence|].
+        split; [rewrite Eor; exact Horph|]. split; [apply members_bars_remove; exact Hmb|].
+        exists L, (K ++ firstn (N.to_nat lc) F), (skipn (N.to_nat lc) F).
+        unfold g_keep. cbn [mg_log mg_kept mg_live tt_adjust_keep tt_n tt_below]. rewrite Ez.
+        assert (Hlc : (N.to_nat lc <= length F)%nat) by (unfold lc; lia).
+        split; [rewrite <- (app_assoc K), firstn_skipn; exact Hr|].
+        split; [exact HL|]. split; [apply rows_equiv_app; [exact HK | apply rows_equiv_firstn; exact HF]|].
+        split; [apply rows_equiv_skipn; exact HF|].
+        split; [rewrite skipn_length; lia|]. split; [rewrite app_length, firstn_length; lia|].
+        split; [lia|].
+        replace (tt_n tg - lc + (ms_zombie_lines m + lc)) with (tt_n tg + ms_zombie_lines m) by (unfold lc; lia).
+        exact Hcur.
+      + (* behind the head: only the flag *)
+        rewrite (proj2 (N.eqb_neq idx first)) by congruence.
+        split; [|reflexivity].
+        exists tg. split; [exact Ht|]. split; [exact Hal|]. split; [exact Hma|]. split; [exact Horph|].
+        split.
+        { unfold members_bars. cbn [ms_members set_ms_members].
+          eapply members_bars_upd; [exact Hmb | | reflexivity]. intros x ls Hx. left. exact Hx. }
+        exists L, K, F. repeat split; try assumption; apply Hcur.
+  Qed.
